@@ -38,7 +38,7 @@ CHECKS = {
          "Every scenario of the product space is run through Change/ChangeToAddress/ChangeToExistingOutput and the post-conditions (untouched outputs, no value creation, quoted fee <= fee left <= quoted fee + slack, unchanged only at/below dust) are evaluated on the result.",
          "Reference fee model internal/props/feeref.go (107-byte placeholder for unsigned P2PKH inputs).", "DESIGN.md §4 C10"),
  "C12": ("model_checking", "explicit-state exploration of the funding loop through the real Tx.Fund: every supplier history up to depth 4/5 over a 16-answer alphabet, with a reference loop in lockstep inside the supplier",
-         "The supplier is the nondeterministic environment; every history (breadth-complete up to the depth bound) x 12 start transactions x 5 quotes is replayed against the implementation and every supplier call is compared with the reference deficit; final inputs/outputs/error are compared with the reference loop. States, transitions and traces are counted by the run.",
+         "The supplier is the nondeterministic environment; every history (breadth-complete up to the depth bound) x 14 start transactions x 6 quotes is replayed against the implementation and every supplier call is compared with the reference deficit; final inputs/outputs/error are compared with the reference loop. States, transitions and traces are counted by the run.",
          "Reference fee model internal/props/feeref.go; all traces are executed on the implementation (no separate model language).", "DESIGN.md §4 C12"),
  "C04": ("exploration", "exhaustive enumeration of sign -> single-field mutation -> verify over keys, shapes, positions, 12 hash types and every mutation class, with the reference digest deciding what each hash type commits to",
          "Each input is signed through the library's signing path and verified by the interpreter; every single-field mutation at every position is then applied and the input must verify iff the reference digest is unchanged.",
@@ -67,6 +67,7 @@ CHECKS = {
 }
 
 WATCHED = {"C01", "C02", "C03", "C04", "C08", "C10", "C11", "C12", "C16"}
+CONCURRENT = {"C01", "C02", "C03", "C13", "C14", "C15", "C16", "C17"}
 
 PENDING_REASON = "check not built yet in this round (planned, see DESIGN.md §4); not claimed until its exhaustive check exists and is quiet on the unchanged tree"
 
@@ -79,6 +80,8 @@ def main():
         level, tech, text, note, ref = CHECKS[i]
         if i in WATCHED:
             tech += "; second stage: write monitor in the instrumented build (every write to the caller's transaction, inputs and outputs that the property does not allow is reported, whether or not it is undone before the call returns)"
+        if i in CONCURRENT:
+            tech += "; concurrent stage in the instrumented build: the property's operations called by 2-4 callers at once on objects of their own under the cooperative scheduler - every interleaving at the library's lock operations (preemption bound 2, then unbounded), vector-clock monitor for conflicting accesses to shared state, results compared with each call made alone"
         checks.append({
             "property_id": i,
             "quick_cmd": f"./check.sh {i} quick",
@@ -95,7 +98,7 @@ def main():
         "setup_cmd": "./setup.sh",
         "hooks": {
             "guard": "verif",
-            "enable": "no hook is committed to /repo: the scheduling points and access probes used by C18 and by the write-monitor stage of C01, C02, C03, C04, C08, C10, C11, C12 and C16 are generated from the current sources of packages bt, bscript and bscript/interpreter at check time and injected with `go build -tags verif -overlay .work/overlay.json`",
+            "enable": "no hook is committed to /repo: the scheduling points and access probes used by C18, by the write-monitor stage of C01, C02, C03, C04, C08, C10, C11, C12 and C16 and by the concurrent stage of C01, C02, C03 and C13-C17 are generated from the current sources of packages bt, bscript and bscript/interpreter at check time and injected with `go build -tags verif -overlay .work/overlay.json`",
             "baseline_off_cmd": "cd /repo && go test -mod=mod -json -vet=off -count=1 -timeout 25m ./...",
             "source_commits": [],
             "add_only": True,
